@@ -154,6 +154,8 @@ def make_case(case, ctx):
                 funcs = list(FUNCS)
                 if want == 'absv_in_de' or ('absv_in_de' not in opened and rnd.random() < 0.3):
                     funcs.append('absv')
+                if rnd.random() < 0.25:
+                    funcs.append('sign')          # piecewise constant: contributes 0 to the Jacobian, must not blank the entry
                 if want == 'sin_or_cos_in_de' or ('sin_or_cos_in_de' not in opened and rnd.random() < 0.5):
                     funcs += ['sin', 'cos']
                 if want == 'inverse_trig_in_de' or ('inverse_trig_in_de' not in opened and rnd.random() < 0.35):
